@@ -998,7 +998,9 @@ func monPrompt(f *Facts, post *Dump, now time.Duration, c03, c07 bool) []Violati
 			continue
 		}
 		o := post.Job(waiting[0])
-		if now >= o.Created+o.StartDelay+time.Millisecond {
+		// eligible: the delay has passed by more than the clock granularity, or it has passed and the job's timer has
+		// already fired (nothing is pending that would start it later)
+		if now >= o.Created+o.StartDelay+time.Millisecond || (!o.HasTimer && now >= o.Created+o.StartDelay) {
 			msg := fmt.Sprintf("pipeline %s has a free slot (%d of %d executing) and its longest-waiting job %d (accepted at %v, start_delay %v) has waited long enough at %v, but it is not started and nothing is pending that would start it: %s", p, running, pd.Concurrency, o.Idx, o.Created, o.StartDelay, now, post.Short())
 			if c03 {
 				vs = append(vs, Violation{Property: "C03", Rule: "prompt", Norm: "eligible-job-not-started", Msg: msg})
